@@ -17,6 +17,27 @@ CHECKS = {
              ]},
         ],
     },
+    "C02": {
+        "explanation": "bounded exploration by the symbolic executor of replication/failover histories over three real commit logs: (a) a step harness whose glue mirrors partition.go/replicator.go with calls to real log functions only, (b) a phase-structured three-term failover harness in which every (re)joining follower runs the real partition.truncateUncommitted against the real partition.handleLeaderOffsetRequest",
+        "assumptions": ["NATS transport (loss, delay, reordering, timeouts), hashicorp/raft, wall-clock lag detection are outside; request/reply is synchronous",
+                        "the fetch/commit/ISR glue is mirrored in the harness (hand transcription of replicator.start/replicate/tick, handleReplicationResponse, commitLoop): a regression in that glue itself is not seen by this check, regressions in the log, the epoch cache, NewLeaderEpoch, LastOffsetForLeaderEpoch, Truncate, handleLeaderOffsetRequest and truncateUncommitted are",
+                        "a crashed leader loses its in-memory replica offsets; a leader that steps down without crashing and leads again later is outside",
+                        "3 replicas, message values are 1 symbolic byte, epochs concrete increasing"],
+        "groups": [
+            {"pkg": "./server/commitlog", "overlay": "commitlog", "pkgname": "commitlog",
+             "harnesses": [
+                 {"name": "VerifC02Replication", "quick": {"steps": 5, "elections": 1}, "thorough": {"steps": 7, "elections": 2}, "max-paths": 5000000,
+                  "covers": ["done", "publish", "fetch", "commit", "election", "follow", "shrink"],
+                  "targets": ["commitLog).NewLeaderEpoch", "commitLog).LastOffsetForLeaderEpoch", "commitLog).Truncate", "commitLog).AppendMessageSet", "leaderEpochCache).ClearLatest"]},
+             ]},
+            {"pkg": "./server", "overlay": "server", "pkgname": "server",
+             "harnesses": [
+                 {"name": "VerifC02Failovers", "replay": "interpreted", "max-paths": 3000000, "tiers": ["thorough"],
+                  "covers": ["done", "second-term", "third-term"],
+                  "targets": ["partition).truncateUncommitted", "partition).handleLeaderOffsetRequest", "partition).sendLeaderOffsetRequest", "commitLog).NewLeaderEpoch"]},
+             ]},
+        ],
+    },
     "C03": {
         "explanation": "bounded symbolic execution of the committed reader over the real log (sequential kernel) and of appender/roller/HW-setter/reader goroutines under an exploring cooperative scheduler with a pre-emption bound",
         "assumptions": ["scheduling points are mutex/RWMutex operations, channel operations, atomics, go statements; interleavings below that granularity (plain data races) are outside",
@@ -276,6 +297,8 @@ CHECKS = {
 TECH = "bounded symbolic execution of the real Go code (go/ssa) with z3; counterexamples replayed natively"
 
 META = {
+    "C02": {"text": "Bounded model checking of the replication protocol over the real log code: (a) every history of k steps from {publish, follower fetch, commit = min over ISR, leader crash + election from the ISR, (re)join with log reconciliation, ISR shrink/expand} on three real commit logs, glue mirrored from partition.go/replicator.go; (b) three leadership terms a -> x -> y with 0-2 messages per term, per-follower fetch counts, HW propagation choices, the first leader rejoining, using the real truncateUncommitted/handleLeaderOffsetRequest. After every step/phase: any two replicas agree at or below both HWs (value and leader epoch), every message ever committed is unchanged on the current leader.",
+            "design_ref": "DESIGN.md §4 C02", "note": "bounds: (a) 5 (quick) / 7 (thorough) steps, <= 1 / 2 elections; (b) thorough only: 3 terms, <= 2 messages per term; transport and Raft are outside; the step harness's glue is hand-mirrored (see assumptions); message values symbolic (solver decides byte equalities)", "technique": TECH},
     "C18": {"text": "Bounded model checking of the implementation by the symbolic executor: a Raft log of event-kind operations, non-event operations and non-command entries is committed step by step while the real dispatcher goroutine runs; publishes and marker applies fail by choice (bounded), leadership is lost and regained, the manager restarts from the recovered marker; back-off timers are virtual. The recorded publish sequence is checked for at-least-once, id = Raft index, commit order of first appearances and head-of-line blocking.",
             "design_ref": "DESIGN.md §4 C18", "note": "bounds: 2-3 operations, 4-5 steps, 1-2 publish failures, 1 marker failure; concrete-shaped data (exhaustive enumeration of decision vectors); replay by concrete re-execution", "technique": TECH},
     "C11": {"text": "Bounded model checking of the implementation by the symbolic executor: every sequence of k operations from {SetCursor, FetchCursor (2 cursor ids), cache purge / become leader, compaction of the cursors log, pause+resume (log closed and reopened), restart (fresh cache), a cleaner interval passing (the log's own cleaner loop rolls an aged active segment, then compacts)} on the real cursor manager + reverse subscription + commit log; every fetch is compared with a map model.",
